@@ -208,7 +208,7 @@ func (p *Parser) parseModule() (module BlockStmt) {
 				expr := p.parseExpressionSuffix(left, OpExpr, OpCall)
 				p.exprLevel--
 				module.List = append(module.List, &ExprStmt{expr})
-				if !p.prevLT && p.tt == SemicolonToken {
+				if p.tt == SemicolonToken {
 					p.next()
 				}
 			} else if p.tt == DotToken {
@@ -221,7 +221,7 @@ func (p *Parser) parseModule() (module BlockStmt) {
 				expr := p.parseExpressionSuffix(left, OpExpr, OpMember)
 				p.exprLevel--
 				module.List = append(module.List, &ExprStmt{expr})
-				if !p.prevLT && p.tt == SemicolonToken {
+				if p.tt == SemicolonToken {
 					p.next()
 				}
 			} else {
@@ -644,8 +644,16 @@ func (p *Parser) parseStmt(allowDeclaration bool) (stmt IStmt) {
 			}
 		}
 	}
-	if !p.prevLT && p.tt == SemicolonToken {
-		p.next()
+	if p.tt == SemicolonToken {
+		if !p.prevLT {
+			p.next()
+		} else {
+			// a semicolon on a new line still terminates a statement that ends in a semicolon, no automatic semicolon is inserted before it
+			switch stmt.(type) {
+			case *ExprStmt, *VarDecl, *DoWhileStmt, *BranchStmt, *ReturnStmt, *ThrowStmt, *DebuggerStmt, *DirectivePrologueStmt:
+				p.next()
+			}
+		}
 	}
 	p.stmtLevel--
 	return
